@@ -3,7 +3,7 @@
    the theorems below hold or fail with the source. *)
 From Coq Require Import List Bool.
 Import ListNotations.
-From PV Require Import C20.Model C20.Proofs Generated.EnvSkeletons.
+From PV Require Import C20.Model C20.Proofs C20.Accepts Generated.EnvSkeletons.
 
 (* soundness of the decision procedure, for every program, schedule (fault point, branch choices) and
    initial environment: if the check passes, EVERY environment variable is back to its entry value/absence *)
@@ -35,6 +35,15 @@ Theorem C20_template_input_env : forall env0 sc st' o sc',
   exec template_input_skel sc (env0, fun _ => None) = (st', o, sc') -> forall v, fst st' v = env0 v.
 Proof. exact (environment_restored _ _ (proj1 C20_template_input_restores) (proj2 C20_template_input_restores)). Qed.
 Print Assumptions C20_template_input_env.
+
+(* the trace matcher used by the correspondence run is complete: the os.environ operations of ANY execution of a
+   skeleton (any fault schedule, any initial state) are accepted with the outcome class of that execution; so an
+   observed run that is rejected is certainly not a behaviour of the generated skeleton *)
+Theorem C20_accepts_complete : forall p sc st st' o sc',
+  exec p sc st = (st', o, sc') ->
+  accepts p (exec_ev p sc st) (match o with E => true | _ => false end) = true.
+Proof. exact accepts_complete. Qed.
+Print Assumptions C20_accepts_complete.
 
 (* non-vacuity: the checker rejects a program that restores only on the straight-line path, and the
    semantics really leaves the variable deleted when the call in between fails *)
